@@ -19,6 +19,7 @@
 package cstate
 
 import (
+	"errors"
 	"fmt"
 
 	"github.com/kardiachain/go-kardia/trie"
@@ -74,6 +75,10 @@ func validateBlock(evidencePool EvidencePool, store Store, state LatestBlockStat
 
 	// Validate block LastCommit
 	if block.Height() == state.InitialHeight {
+		// Block.ValidateBasic accepts a block at height 1 without a LastCommit.
+		if block.LastCommit() == nil {
+			return errors.New("nil LastCommit")
+		}
 		if len(block.LastCommit().Signatures) != 0 {
 			return ErrLastCommitSig
 		}
